@@ -8,7 +8,7 @@ from core import Case, enc_call, guard
 ID = "C03"
 PROOF_FILE = "Properties/C03.v"
 THEOREMS = ["C03_thresholds_2_to_4", "C03_threshold_1", "C03_trimming", "C03_monotone", "C03_unique",
-            "C03_latter_map_trimming", "C03_remove_useless"]
+            "C03_latter_map_trimming", "C03_remove_useless", "C03_monotone_function", "C03_no_dead_end"]
 CONE = ["Proofs/GenerateProofs.v", "Proofs/TrimMapProofs.v", "Proofs/ReprProofs.v", "Proofs/GraphProofs.v", "Proofs/KmerProofs.v", "Graph.v", "Kmer.v", "GraphSpec.v",
         "Spec.v", "Py.v"]
 MODEL_FUNCTIONS = ["connect_coding_graph", "remove_useless", "latter_map_to_accessor", "accessor_to_latter_map",
